@@ -155,7 +155,7 @@ func (g *genC10) Config(rng *Rng, tier string) Config {
 	if tier == "thorough" {
 		g.nb = 40 + rng.Intn(80)
 	}
-	g.net = newNet(rng, []string{"tx_dup", "tx_delay", "tx_reorder", "out_of_gas", "crash_restart", "tx_drop"}, 5)
+	g.net = newNet(rng, []string{"tx_dup", "tx_delay", "tx_reorder", "out_of_gas", "crash_restart", "tx_drop", "multi_msg"}, 5)
 	c.InvCheckPeriod = uint(rng.Pick64(0, 0, 1))
 	return c
 }
@@ -309,7 +309,10 @@ func modelIsOwner(f fttypes.Files, signer string) bool {
 // the expected post-state and whether the message is authorised and well-formed.
 func ftApply(pre ftDump, m sdk.Msg) (post ftDump, ok bool, why string) {
 	post = cloneFt(pre)
-	accessEdit := func(address, owner, signer string, viewers bool, fn func(map[string]string, fttypes.Files) bool) (ftDump, bool, string) {
+	// fn returns the new access map (nil map allowed, it marshals to "null") and whether the
+	// id/key lists were well-formed. Writing into the nil map a stored "null" decodes to makes the
+	// chain's handler panic, i.e. the transaction fails: the model reports "not ok" for it.
+	accessEdit := func(address, owner, signer string, viewers bool, fn func(map[string]string, fttypes.Files) (map[string]string, bool)) (ftDump, bool, string) {
 		f, found := pre[ftKey(address, owner)]
 		if !found {
 			return post, false, "no such entry"
@@ -325,10 +328,20 @@ func ftApply(pre ftDump, m sdk.Msg) (post ftDump, ok bool, why string) {
 		if !good {
 			return post, false, "stored access list unparseable"
 		}
-		if !fn(mm, f) {
+		var out map[string]string
+		okFn := func() (ok bool) {
+			defer func() {
+				if r := recover(); r != nil {
+					ok = false
+				}
+			}()
+			out, ok = fn(mm, f)
+			return ok
+		}()
+		if !okFn {
 			return post, false, "malformed id/key lists"
 		}
-		bz, _ := json.Marshal(mm)
+		bz, _ := json.Marshal(out)
 		if viewers {
 			f.ViewingAccess = string(bz)
 		} else {
@@ -388,60 +401,50 @@ func ftApply(pre ftDump, m sdk.Msg) (post ftDump, ok bool, why string) {
 		post[nk] = f
 		return post, true, ""
 	case *fttypes.MsgAddViewers:
-		return accessEdit(x.Address, x.FileOwner, x.Creator, true, func(mm map[string]string, _ fttypes.Files) bool {
+		return accessEdit(x.Address, x.FileOwner, x.Creator, true, func(mm map[string]string, _ fttypes.Files) (map[string]string, bool) {
 			ids, keys := strings.Split(x.ViewerIds, ","), strings.Split(x.ViewerKeys, ",")
 			if len(keys) < len(ids) {
-				return false
+				return nil, false
 			}
 			for i, id := range ids {
 				mm[id] = keys[i]
 			}
-			return true
+			return mm, true
 		})
 	case *fttypes.MsgAddEditors:
-		return accessEdit(x.Address, x.FileOwner, x.Creator, false, func(mm map[string]string, _ fttypes.Files) bool {
+		return accessEdit(x.Address, x.FileOwner, x.Creator, false, func(mm map[string]string, _ fttypes.Files) (map[string]string, bool) {
 			ids, keys := strings.Split(x.EditorIds, ","), strings.Split(x.EditorKeys, ",")
 			if len(keys) < len(ids) {
-				return false
+				return nil, false
 			}
 			for i, id := range ids {
 				mm[id] = keys[i]
 			}
-			return true
+			return mm, true
 		})
 	case *fttypes.MsgRemoveViewers:
-		return accessEdit(x.Address, x.FileOwner, x.Creator, true, func(mm map[string]string, _ fttypes.Files) bool {
+		return accessEdit(x.Address, x.FileOwner, x.Creator, true, func(mm map[string]string, _ fttypes.Files) (map[string]string, bool) {
 			for _, id := range strings.Split(x.ViewerIds, ",") {
 				delete(mm, id)
 			}
-			return true
+			return mm, true
 		})
 	case *fttypes.MsgRemoveEditors:
-		return accessEdit(x.Address, x.FileOwner, x.Creator, false, func(mm map[string]string, _ fttypes.Files) bool {
+		return accessEdit(x.Address, x.FileOwner, x.Creator, false, func(mm map[string]string, _ fttypes.Files) (map[string]string, bool) {
 			for _, id := range strings.Split(x.EditorIds, ",") {
 				delete(mm, id)
 			}
-			return true
+			return mm, true
 		})
 	case *fttypes.MsgResetViewers:
-		return accessEdit(x.Address, x.FileOwner, x.Creator, true, func(mm map[string]string, f fttypes.Files) bool {
+		return accessEdit(x.Address, x.FileOwner, x.Creator, true, func(mm map[string]string, f fttypes.Files) (map[string]string, bool) {
 			own := ftViewerID(f.TrackingNumber, x.Creator)
-			key := mm[own]
-			for k := range mm {
-				delete(mm, k)
-			}
-			mm[own] = key
-			return true
+			return map[string]string{own: mm[own]}, true
 		})
 	case *fttypes.MsgResetEditors:
-		return accessEdit(x.Address, x.FileOwner, x.Creator, false, func(mm map[string]string, f fttypes.Files) bool {
+		return accessEdit(x.Address, x.FileOwner, x.Creator, false, func(mm map[string]string, f fttypes.Files) (map[string]string, bool) {
 			own := ftEditorID(f.TrackingNumber, x.Creator)
-			key := mm[own]
-			for k := range mm {
-				delete(mm, k)
-			}
-			mm[own] = key
-			return true
+			return map[string]string{own: mm[own]}, true
 		})
 	}
 	return post, true, "unjudged"
